@@ -90,11 +90,38 @@ def snapvote_fn(ex):
 
 GHOST_INT = ('nH', 'nE', 'nD', 'nW', 'nP', 'nlog', 'lastcomplete', 'hooked')
 GHOST_STR = ('lasttag', 'lastmsg')
+# the vote ledger (DESIGN 11.L): T = sum of all candidates' tallies + the non-transferable total (a value of the arithmetic
+# class); G[c] = sum over the ballots that stand with candidate c of weight x multiplier (index 0: exhausted ballots).
+# Both are maintained by the engine at every write of Candidate.vote / Election.exhausted / Ballot.weight / Ballot.index
+# (sum-update lemma) while a contract with ledger=True is being verified.
+GHOST_VAL = ('T', 'Mv')
+GHOST_ARR = ('G',)
+CUR_EX = [None]
+
+
+class SGhostArr(SV):
+    "ghost array object id -> value of the arithmetic class"
+    kind = 'gharr'
+
+    def __init__(self, t):
+        self.t = t
+
+    def __repr__(self):
+        return 'SGhostArr(%s)' % str(self.t)[:40]
+
+
+def _val_sort():
+    ex = CUR_EX[0]
+    return R if (ex is not None and ex.instance == 'real') else I
 
 
 def ghost_fresh(name):
     if name in GHOST_STR:
         return SStr(t=fresh_int('g_' + name))
+    if name in GHOST_VAL:
+        return SVal(z3.Const(fresh_name('g_' + name), _val_sort()))
+    if name in GHOST_ARR:
+        return SGhostArr(z3.Const(fresh_name('g_' + name), z3.ArraySort(I, _val_sort())))
     return SInt(fresh_int('g_' + name))
 
 
@@ -102,11 +129,45 @@ def ghost_get(st, name):
     k = 'g:' + name
     v = st.ghost.get(k)
     if v is None:
-        v = SStr(t=z3.Int('g0_' + name)) if name in GHOST_STR else SInt(z3.Int('g0_' + name))
+        if name in GHOST_STR:
+            v = SStr(t=z3.Int('g0_' + name))
+        elif name in GHOST_VAL:
+            v = SVal(z3.Const('g0_' + name, _val_sort()))
+        elif name in GHOST_ARR:
+            v = SGhostArr(z3.Const('g0_' + name, z3.ArraySort(I, _val_sort())))
+        else:
+            v = SInt(z3.Int('g0_' + name))
         st.ghost[k] = v
         if name in GHOST_INT:
             st.assume(v.t >= 0)
     return v
+
+
+def ledger_on(ex):
+    return bool(getattr(ex, 'ledger', False))
+
+
+def top_of(C, st, b):
+    "the candidate object a ballot currently stands with (0: exhausted)"
+    idx = z3.Select(C.heap_array(st, BALLOT, 'index', 'int'), b)
+    rk = z3.Select(C.heap_array(st, BALLOT, 'ranking', 'seq:int'), b)
+    return z3.If(z3.And(idx >= 0, idx < seqlen(rk)), byCid(seqelem(rk, idx)), z3.IntVal(0))
+
+
+def ballot_value(C, st, b, weight=None):
+    "weight x multiplier of a ballot object (the multiplier is a whole number: count_entry)"
+    ex = C.ex
+    w = weight if weight is not None else z3.Select(C.heap_array(st, BALLOT, 'weight', 'val'), b)
+    m = z3.Select(C.heap_array(st, BALLOT, 'multiplier', 'val'), b)
+    if ex.instance == 'real':
+        return w * z3.ToReal(whole_of_r(m))
+    return w * whole_of(m)
+
+
+def arr_move(G, frm, to, amt):
+    "G with amt taken from index frm and added at index to"
+    G1 = z3.Store(G, frm, z3.Select(G, frm) - amt)
+    return z3.Store(G1, to, z3.Select(G1, to) + amt)
 
 
 def str_id(s):
@@ -135,8 +196,11 @@ def election_facts(ex, st):
                         patterns=[seqelem(sq, jq)]))
     kq = z3.Int('kq!')
     carr = C.heap_array(st, CAND, 'cid', 'int')
-    st.assume(z3.ForAll([kq], z3.Implies(validcid(kq), z3.And(inC(byCid(kq)), byCid(kq) >= 1, byCid(kq) < a0)),
+    st.assume(z3.ForAll([kq], z3.Implies(validcid(kq), z3.And(inC(byCid(kq)), byCid(kq) >= 1, byCid(kq) < a0,
+                                                              z3.Select(carr, byCid(kq)) == kq)),
                         patterns=[byCid(kq)]))
+    # candidate ids are distinct (A-profile): Candidates.byCid is the inverse of .cid on the candidates of the election
+    st.facts.append((CAND, lambda t: z3.Implies(inC(t), byCid(z3.Select(C.heap_array(st, CAND, 'cid', 'int'), t)) == t)))
     # every candidate of the election has one of the four states; counters are non-negative
     stt = C.heap_array(st, CAND, 'state', 'str')
     st.facts.append((CAND, lambda t: z3.Implies(inC(t), z3.Or(*[z3.Select(C.heap_array(st, CAND, 'state', 'str'), t) == str_id(x)
@@ -236,6 +300,7 @@ def sorted_facts(C, st, R, keyname, reverse):
 def install_election(ex):
     C = ex.C
     repo = ex.repo
+    CUR_EX[0] = ex
 
     def mk_select(st, what, order, reverse):
         election_facts(ex, st)
@@ -395,6 +460,32 @@ def install_election(ex):
     RULE_HOOKS = ('droop.rules.electionrule.ElectionRule.action', 'droop.rules.electionmethods.MethodWIGM.action',
                   'droop.rules.electionmethods.MethodMeek.action', 'droop.rules.qpq.Rule.action')
 
+    LOG_POINTS = ('droop.candidate.Candidate.defeat', 'droop.candidate.Candidate.unpend', 'droop.candidate.Candidate.elect',
+                  'droop.election.Election.logAction', 'droop.election.Election.newRound', 'droop.election.Election.log')
+
+    def ledger_site(info, st, node):
+        """C02 at every point of a rule's count() where an action is recorded: the tallies and the non-transferable total add
+        up to no more than the ballots cast (exactly the ballots cast under exact arithmetic)"""
+        caller = ex.cur_func.qualname if ex.cur_func is not None else ''
+        if not ledger_on(ex) or not caller.startswith(WIGM_MODULES) or not caller.endswith('.count') or getattr(ex, 'muted', 0):
+            return
+        from .arith import lift
+        election_facts(ex, st)
+        nB = C.read_field(st, C.read_field(st, SRef(repo.resolve(ELEC), THE_E), 'electionProfile'), 'nBallots').t
+        total = lift(C, SInt(nB), st)
+        T = ghost_get(st, 'T').t
+        line = getattr(node, 'lineno', 0)
+        k = C.site_anchor_n(caller, 'ledger-log', line)
+        what = info.qualname.rsplit('.', 1)[1]
+        if ex.instance == 'real':
+            ex.col.add('PRE', ['C02'], caller, 'ledger@%d:%s:conserved' % (k, what),
+                       'at a recorded step the tallies and the non-transferable total add up to exactly the ballots cast (exact arithmetic)',
+                       C.assumptions(st), T == total)
+        else:
+            ex.col.add('PRE', ['C02'], caller, 'ledger@%d:%s:no-creation' % (k, what),
+                       'at a recorded step the tallies and the non-transferable total add up to no more than the ballots cast',
+                       C.assumptions(st), T <= total)
+
     def pre_call(info, env, st, fr, node):
         q = info.qualname
         if q in RULE_HOOKS:
@@ -406,6 +497,8 @@ def install_election(ex):
                 ghost_get(st, 'hooked')
                 st.ghost['g:hooked'] = SInt(a.t)
             return None
+        if q in LOG_POINTS:
+            ledger_site(info, st, node)
         if q in ('droop.candidate.Candidate.defeat', 'droop.candidate.Candidate.unpend', 'droop.candidate.Candidate.elect'):
             site_obligations(info, env, st, fr, node)
             return None
@@ -559,8 +652,36 @@ def install_election(ex):
             return L
         return None
 
+    def ledger_write(st, ref, cname, field, v):
+        "ledger ghosts follow every write of a tally, the non-transferable total, a ballot's weight or position"
+        t = ref.t
+        if cname == CAND and field == 'vote' and isinstance(v, SVal):
+            election_facts(ex, st)
+            old = z3.Select(C.heap_array(st, CAND, 'vote', 'val'), t)
+            cur = ghost_get(st, 'T').t
+            st.ghost['g:T'] = SVal(z3.If(inC(t), cur + v.t - old, cur))
+        elif cname == ELEC and field == 'exhausted' and isinstance(v, SVal):
+            old = z3.Select(C.heap_array(st, ELEC, 'exhausted', 'val'), t)
+            cur = ghost_get(st, 'T').t
+            st.ghost['g:T'] = SVal(z3.If(t == THE_E, cur + v.t - old, cur))
+        elif cname == BALLOT and field == 'weight' and isinstance(v, SVal):
+            election_facts(ex, st)
+            G = ghost_get(st, 'G').t
+            top = top_of(C, st, t)
+            d = ballot_value(C, st, t, v.t) - ballot_value(C, st, t)
+            st.ghost['g:G'] = SGhostArr(z3.If(isBallot(t), z3.Store(G, top, z3.Select(G, top) + d), G))
+        elif cname == BALLOT and field == 'index' and isinstance(v, SInt):
+            election_facts(ex, st)
+            G = ghost_get(st, 'G').t
+            top = top_of(C, st, t)
+            rk = z3.Select(C.heap_array(st, BALLOT, 'ranking', 'seq:int'), t)
+            ntop = z3.If(z3.And(v.t >= 0, v.t < seqlen(rk)), byCid(seqelem(rk, v.t)), z3.IntVal(0))
+            st.ghost['g:G'] = SGhostArr(z3.If(isBallot(t), arr_move(G, top, ntop, ballot_value(C, st, t)), G))
+
     def before_write(st, ref, cname, field, v, kind):
         "ghost counters follow every write of Candidate.state / .pending (card-update lemma)"
+        if ledger_on(ex) and (cname, field) in ((CAND, 'vote'), (ELEC, 'exhausted'), (BALLOT, 'weight'), (BALLOT, 'index')):
+            ledger_write(st, ref, cname, field, v)
         if cname != CAND or field not in ('state', 'pending'):
             return
         election_facts(ex, st)
@@ -610,6 +731,134 @@ def install_election(ex):
                                                  z3.Select(v, c) == z3.Select(varr0, c)))
             out.append(('Q:non-hopeful tallies unchanged', f))
         return out
+    # ------------------------------------------------------------------------------------------ vote ledger (C02/C06)
+    def sweep_of(s, st, fr):
+        """classify a `for` statement over the ballots: ('all', None) for `for b in E.ballots`, ('at', X) for
+        `for b in (b for b in E.ballots if b.topRank == X.cid)`, else None"""
+        if not isinstance(s, ast.For):
+            return None
+        it = s.iter
+        if isinstance(it, ast.Attribute) and it.attr == 'ballots':
+            return ('all', None)
+        if isinstance(it, ast.GeneratorExp) and len(it.generators) == 1:
+            g = it.generators[0]
+            if isinstance(g.iter, ast.Attribute) and g.iter.attr == 'ballots' and len(g.ifs) == 1:
+                cond = g.ifs[0]
+                if isinstance(cond, ast.Compare) and len(cond.ops) == 1 and isinstance(cond.ops[0], ast.Eq) and \
+                        isinstance(cond.left, ast.Attribute) and cond.left.attr == 'topRank' and \
+                        isinstance(cond.comparators[0], ast.Attribute) and cond.comparators[0].attr == 'cid':
+                    return ('at', cond.comparators[0].value)
+        return None
+
+    def ledger_T(st):
+        return ghost_get(st, 'T').t
+
+    def ledger_G(st):
+        return ghost_get(st, 'G').t
+
+    def loop_declared(C_, kind, s, L, W, pre, fr, visited_at):
+        """ledger invariants of the ballot sweeps (obligations like any declared invariant):
+        sweep over all ballots crediting each ballot's value to the candidate it stands with: tallies and total follow the
+        partial sums over the ballots visited so far; sweep over the ballots standing with candidate X: the value leaving
+        X's pile is what is credited elsewhere (exclusion) / bounds what is credited (surplus)"""
+        if not ledger_on(ex) or kind != 'for':
+            return [], None
+        sw = sweep_of(s, pre, fr)
+        if sw is None or (CAND, 'vote') not in W.heap:
+            return [], None
+        real = ex.instance == 'real'
+        vs = R if real else I
+        varr0 = C.heap_array(pre, CAND, 'vote', 'val')
+        T0, G0 = ledger_T(pre), ledger_G(pre)
+        c = z3.Int('c!led')
+        if sw[0] == 'all':
+            if (BALLOT, 'index') in W.heap or (BALLOT, 'weight') in W.heap:
+                return [], None
+            # positional partial sums over E.ballots of the (unchanging) ballot values: definitional
+            tsum = z3.Function(fresh_name('tsum'), I, vs)
+            psum = z3.Function(fresh_name('psum'), I, I, vs)
+            x0 = lambda b: ballot_value(C, pre, b)      # noqa
+            top0 = lambda b: top_of(C, pre, b)          # noqa
+            w0 = C.heap_array(pre, BALLOT, 'weight', 'val')
+            one = C.const_field(pre, 'V1').t
+            nB = C.read_field(pre, C.read_field(pre, SRef(repo.resolve(ELEC), THE_E), 'electionProfile'), 'nBallots').t
+            from .arith import lift
+            total = lift(C, SInt(nB), pre)
+            ex.col.assumed.add('ledger: partial sums over E.ballots (tsum/psum, definitional); the multipliers of the ballots add up '
+                               'to nBallots (C15 post-parse invariant); G[c] is the sum of the values of the ballots standing with c (model)')
+
+            def ax(st, it):
+                e = ballots_elem(it)
+                b = z3.Int('b!led')
+                return [tsum(z3.IntVal(0)) == 0, z3.ForAll([c], psum(c, z3.IntVal(0)) == 0),
+                        z3.Implies(z3.And(it >= 0, it < N_BALLOT_OBJS), tsum(it + 1) == tsum(it) + x0(e)),
+                        z3.Implies(z3.And(it >= 0, it < N_BALLOT_OBJS),
+                                   z3.ForAll([c], psum(c, it + 1) == psum(c, it) + z3.If(top0(e) == c, x0(e), 0))),
+                        # closing facts: all ballots at full weight are worth the number of ballots; G is the complete sum
+                        z3.Implies(z3.ForAll([b], z3.Implies(isBallot(b), z3.Select(w0, b) == one)), tsum(N_BALLOT_OBJS) == total),
+                        z3.ForAll([c], psum(c, N_BALLOT_OBJS) == z3.Select(G0, c))]
+            invs = [('[C02] ledger: total credited so far is the value of the ballots visited',
+                     lambda st, it: ledger_T(st) == T0 + tsum(it)),
+                    ('[C02,C06] ledger: each tally grew by the value of the visited ballots standing with that candidate',
+                     lambda st, it: z3.ForAll([c], z3.Select(C.heap_array(st, CAND, 'vote', 'val'), c) ==
+                                              z3.Select(varr0, c) + psum(c, it)))]
+            return invs, ax
+        # sweep over the ballots standing with candidate X
+        outs = ex.ev(sw[1], pre.fork(), fr)
+        if len(outs) != 1 or outs[0].kind != 'ok' or not isinstance(outs[0].val, (SRef, SOpt)):
+            return [], None
+        hc = (outs[0].val.inner if isinstance(outs[0].val, SOpt) else outs[0].val).t
+        v = z3.Select(varr0, hc)
+        q = C.read_field(pre, SRef(repo.resolve(ELEC), THE_E), 'quota').t
+        sname = z3.Const(fresh_name('surplus'), vs)
+        b = z3.Int('b!led')
+
+        def ax(st, it):
+            return [sname == v - q]
+        invs = [('[C02,C06] ledger: the other candidates\' tallies move with the value of the ballots standing with them',
+                 lambda st, it: z3.ForAll([c], z3.Implies(z3.And(inC(c), c != hc),
+                     z3.Select(C.heap_array(st, CAND, 'vote', 'val'), c) - z3.Select(ledger_G(st), c) ==
+                     z3.Select(varr0, c) - z3.Select(G0, c)))),
+                ('[C02,C06] ledger: a ballot already visited no longer stands with the candidate being swept',
+                 lambda st, it: (lambda va: z3.ForAll([b], z3.Implies(z3.And(isBallot(b), va(b)), top_of(C, st, b) != hc)))(visited_at(it))
+                 if visited_at(it) is not None else None)]
+        if (BALLOT, 'weight') not in W.heap:
+            invs.append(('[C02] ledger: what has been credited is exactly the value that left the swept candidate\'s pile',
+                         lambda st, it: ledger_T(st) - T0 == z3.Select(G0, hc) - z3.Select(ledger_G(st), hc)))
+        elif real:
+            invs.append(('[C02] ledger: credited x tally == value that left the pile x surplus (exact arithmetic)',
+                         lambda st, it: (ledger_T(st) - T0) * v == (z3.Select(G0, hc) - z3.Select(ledger_G(st), hc)) * sname))
+        else:
+            invs.append(('[C02] ledger: credited x tally <= value that left the pile x surplus (no vote is created)',
+                         lambda st, it: (ledger_T(st) - T0) * v <= (z3.Select(G0, hc) - z3.Select(ledger_G(st), hc)) * sname))
+        invs = [(lab, f) for lab, f in invs]
+        return invs, ax
+    ex.hooks['loop_declared'] = loop_declared
+
+    def loop_exit(C_, kind, s, L, W, pre, ex_head, fr):
+        "empty-sum lemma: once no ballot stands with the swept candidate, the value of its pile is zero"
+        if not ledger_on(ex) or kind != 'for':
+            return
+        sw = sweep_of(s, pre, fr)
+        if sw is None or sw[0] != 'at':
+            return
+        outs = ex.ev(sw[1], pre.fork(), fr)
+        if len(outs) != 1 or outs[0].kind != 'ok' or not isinstance(outs[0].val, (SRef, SOpt)):
+            return
+        hc = (outs[0].val.inner if isinstance(outs[0].val, SOpt) else outs[0].val).t
+        b = z3.Int('b!es')
+        ex.col.assumed.add('ledger: empty-sum lemma (no ballot stands with c  =>  G[c] == 0) (model)')
+        none_left = z3.ForAll([b], z3.Implies(isBallot(b), top_of(C, ex_head, b) != hc))
+        if not getattr(ex, 'muted', 0):
+            fname = fr.func.qualname if fr.func else '?'
+            k = C.site_anchor_n(fname, 'sweep-complete', getattr(s, 'lineno', 0))
+            ex.col.add('INV', ['C02', 'C06'], fname, 'sweep@%d:complete' % k,
+                       'when a sweep of the ballots standing with a candidate ends, no ballot stands with that candidate any more',
+                       C.assumptions(ex_head), none_left)
+        # proved above (an obligation of its own), so the lemma's conclusion is available from here on
+        ex_head.assume(z3.Select(ledger_G(ex_head), hc) == 0)
+    ex.hooks['loop_exit'] = loop_exit
+
     def dynamic_facts(st):
         """counters as cardinalities, on the *current* heap (lemma card_pos: a member of the class makes its
         counter positive)"""
